@@ -15,7 +15,7 @@
    the hypothesis that names the excluded class. *)
 From HV Require Import Base.Prelude Base.Outcome Base.Bytes Spec.Parse Spec.Format Spec.FormatMsg
   Model.CodecMsg Model.CodecType Model.CodecLink Model.CodecAttr Model.CodecSuper
-  Proofs.ReaderSpecBase Proofs.ReaderSpecDataspace Proofs.ReaderSpecLayout Proofs.ReaderSpecLink Proofs.ReaderSpecSuper Proofs.ReaderSpecAttr Proofs.ReaderSpecType.
+  Proofs.ReaderSpecBase Proofs.ReaderSpecDataspace Proofs.ReaderSpecLayout Proofs.ReaderSpecLink Proofs.ReaderSpecSuper Proofs.ReaderSpecAttr Proofs.ReaderSpecType Proofs.ReaderSpecAttrFrame.
 
 (* ------------------------------------------------------------------ dataspace (versions 1 and 2; scalar, simple, null;
    maximum extents).  The reader is not told the size of lengths: it infers 8- or 4-byte extents from the message length.
@@ -129,3 +129,30 @@ Theorem C06_reader_attribute_v2_padding_refuted :
           atp_data := Some [1; 2; 3; 4; 5; 6] |}.
 Proof. exact attribute_v2_padding_refuted. Qed.
 Print Assumptions C06_reader_attribute_v2_padding_refuted.
+
+(* ------------------------------------------------------------------ attribute message versions 1 and 3: framing.
+   version | reserved | name size | datatype size | dataspace size | [v3: character set] | name | datatype | dataspace |
+   data; name / datatype / dataspace padded to multiples of 8 bytes in version 1 (the reader's uint16 (s+7)&^7 is proved
+   equal to the specification's rounding for messages shorter than 65536 bytes = the object header's 16-bit message size).
+   at_agree: same name; dataspace agrees (ds_agree); datatype agrees (dt_agree) when of class 0 / 1 / 3; the data the reader
+   hands back (the rest of the message, so including up to 7 bytes of object header padding) starts with the
+   specification's data bytes. *)
+Theorem C06_reader_attribute_v1 : forall (lsz : nat) (pad_ok : bool) (bs : bytes) (a : attribute_spec) (tg : list tag),
+  bytes_ok bs = true -> blen bs < 65536 ->
+  lsz = 4%nat \/ lsz = 8%nat ->
+  spec_dec_attribute strict lsz pad_ok bs = Ok (a, tg) ->
+  index bs 0 = Ok 1 ->
+  simple_rank0 (as_space a) = false ->
+  err_or (at_agree a) (dec_attribute false bs).
+Proof. exact attribute_v1_reader_spec. Qed.
+Print Assumptions C06_reader_attribute_v1.
+
+Theorem C06_reader_attribute_v3 : forall (lsz : nat) (pad_ok : bool) (bs : bytes) (a : attribute_spec) (tg : list tag),
+  bytes_ok bs = true -> blen bs < 65536 ->
+  lsz = 4%nat \/ lsz = 8%nat ->
+  spec_dec_attribute strict lsz pad_ok bs = Ok (a, tg) ->
+  index bs 0 = Ok 3 ->
+  simple_rank0 (as_space a) = false ->
+  err_or (at_agree a) (dec_attribute false bs).
+Proof. exact attribute_v3_reader_spec. Qed.
+Print Assumptions C06_reader_attribute_v3.
